@@ -492,13 +492,16 @@ func (s *rscenario) finish(base int, t0 time.Time) (string, string) {
 	if closeState == "ret" {
 		// quiet period: anything sent after Close returned would be journalled now
 		time.Sleep(60 * time.Millisecond)
-		n := settle(base, time.Second)
+		n := settle(base, censusBound())
 		s.rec.add("lk/%d", n)
 		leak = strconv.Itoa(n)
 		oc := int(atomic.LoadInt32(&s.open))
-		for i := 0; i < 200 && oc != 0; i++ {
+		for i := 0; i < censusSteps() && oc != 0; i++ {
 			time.Sleep(2 * time.Millisecond)
 			oc = int(atomic.LoadInt32(&s.open))
+		}
+		if oc != 0 {
+			noteStuck()
 		}
 		s.rec.add("oc/%d", oc)
 		conns = strconv.Itoa(oc)
